@@ -9,7 +9,7 @@ import os
 from .. import gen
 from ..common import Inconclusive
 from ..lsp import LSP, uri_to_path
-from ..runner import vh_bin, srv_bin, materialize, def_index, expected_target, res_kind
+from ..runner import vh_bin, srv_bin, materialize, def_index, expected_target, res_kind, predict_import_branch
 from ..vh import VH
 
 KF_IMPORT = "KF-C01-import-first-registered"
@@ -40,16 +40,17 @@ def judge_usage(ctx, ws, model, order, file, u, actual_at, level):
         if good:
             continue
         # known-finding attribution: conftest import branch returns the first-registered same-named definition
-        if res is not None and res_kind(res) == "conftest_import" and act is not None:
-            cands = [d for d in order.get(name, []) if d != ex]
-            if level == "vh":
-                predicted = cands[0] if cands else None
-                if predicted == act and ctx.known(KF_IMPORT):
-                    continue
-            else:
-                if act in cands and len(cands) >= 2 and ctx.known(KF_IMPORT):
-                    ctx.count("kf_loose_lsp")
-                    continue
+        if act is not None:
+            predicted = predict_import_branch(model, order, file, name, ex)
+            if predicted is not None:
+                if level == "vh":
+                    if predicted == act and ctx.known(KF_IMPORT):
+                        continue
+                else:
+                    cands = [d for d in order.get(name, []) if d != ex]
+                    if act in cands and len(cands) >= 2 and ctx.known(KF_IMPORT):
+                        ctx.count("kf_loose_lsp")
+                        continue
         ctx.violation({"file": os.path.relpath(file, ws.root), "usage": [u["name"], u["line"], u["start_b"]],
                        "expected": sorted(exp) if exp else None, "actual": act, "level": level},
                       {"expected_kind": res_kind(res), "column": col, "usage_kind": u["kind"], "spec": ws.spec},
@@ -179,7 +180,7 @@ def judge_cols_only(ctx, ws, model, order, f, u, uu, actual_at):
     good = (act is None and exp is None) or (act is not None and exp is not None and act in exp)
     if good:
         return
-    if res is not None and res_kind(res) == "conftest_import" and act is not None:
+    if act is not None and predict_import_branch(model, order, f, name, ex) is not None:
         cands = [d for d in order.get(name, []) if d != ex]
         if act in cands and len(cands) >= 2 and ctx.known(KF_IMPORT):
             ctx.count("kf_loose_lsp")
